@@ -76,8 +76,8 @@ SHIFTS = {'lshift': operator.lshift, 'rshift': operator.rshift}
 ISHIFTS = {'lshift': operator.ilshift, 'rshift': operator.irshift}
 
 BITSTRING_KINDS = ['Bits', 'BitArray', 'ConstBitStream', 'BitStream']
-PROMOTABLE = ['str', 'hexstr', 'bytes', 'bytearray', 'memoryview', 'list', 'tuple', 'gen', 'bitarray']
-REFLECTABLE = {'str', 'hexstr', 'bytes', 'bytearray', 'memoryview', 'list', 'tuple', 'gen'}
+PROMOTABLE = ['str', 'hexstr', 'bytes', 'bytearray', 'memoryview', 'list', 'tuple', 'gen', 'truthy', 'truthy-iter', 'bitarray']
+REFLECTABLE = {'str', 'hexstr', 'bytes', 'bytearray', 'memoryview', 'list', 'tuple', 'gen', 'truthy', 'truthy-iter'}
 ROUTES = ['bin', 'bin', 'slice', 'bytes', 'auto']
 UINT_LIMIT = 257
 
@@ -468,7 +468,7 @@ def pick_kind(rng, bits, kinds=None):
         k = rng.choice(['str', 'list', 'bitarray'])
     if k == 'hexstr' and (len(bits) % 4 or not bits):
         k = 'str'
-    if k in ('list', 'tuple', 'gen') and len(bits) > 3000:
+    if k in ('list', 'tuple', 'gen', 'truthy', 'truthy-iter') and len(bits) > 3000:
         k = 'bitarray'
     return k
 
